@@ -510,3 +510,46 @@ def outcomes_by_case(stmts, cases, atom, facts=None, on_node=None):
             for lab in passed:
                 outs.add(('passed', lab))
         yield case, outs
+
+
+def truthiness_uses(fdef, is_value_source):
+    """Places where a value obtained from `is_value_source(call)` (directly, or through a local assigned from such a call) is used as a truth
+    value: the test of an if / while / conditional expression, an operand of and / or / not.  A tag value of 0 or '' is falsy, so such a test
+    silently treats legitimate values as missing.  Returns [(node, description)]."""
+    valnames = set()
+    for s in walk_no_nested(fdef):
+        if isinstance(s, ast.Assign) and len(s.targets) == 1 and isinstance(s.targets[0], ast.Name) and isinstance(s.value, ast.Call) and is_value_source(s.value):
+            valnames.add(s.targets[0].id)
+
+    def is_val(e):
+        return (isinstance(e, ast.Name) and e.id in valnames) or (isinstance(e, ast.Call) and is_value_source(e))
+    out = []
+
+    def boolctx(e, where):
+        if is_val(e):
+            out.append((e, f'`{src(e)[:50]}` is used as a truth value in {where}'))
+        elif isinstance(e, ast.UnaryOp) and isinstance(e.op, ast.Not):
+            boolctx(e.operand, where)
+        elif isinstance(e, ast.BoolOp):
+            for v in e.values:
+                boolctx(v, where)
+    for n in walk_no_nested(fdef):
+        if isinstance(n, (ast.If, ast.While)):
+            boolctx(n.test, 'an if / while test')
+        elif isinstance(n, ast.IfExp):
+            boolctx(n.test, 'a conditional expression')
+        elif isinstance(n, ast.BoolOp):
+            # `value or default`
+            for v in n.values[:-1]:
+                if is_val(v):
+                    out.append((v, f'`{src(n)[:60]}` falls back when the value is falsy'))
+        elif isinstance(n, ast.comprehension):
+            for t in n.ifs:
+                boolctx(t, 'a comprehension filter')
+    seen = set()
+    res = []
+    for n, d in out:
+        if id(n) not in seen:
+            seen.add(id(n))
+            res.append((n, d))
+    return res
